@@ -27,8 +27,9 @@ ASSUMPTIONS = [
     "edge length of spline/polyLine = polyline through end points and given points (the library's definition)",
 ]
 
-KINDS = ["arc", "origin", "angle+", "angle-", "spline", "polyline", "project1", "project2", "oncurve", "line", "collinear_arc", "zero_length"]
-DIRECTED = {"angle+", "angle-", "spline", "polyline", "oncurve"}
+ANGLES = {"angle+": 0.9, "angle-": -1.3, "angle++": 4.0, "angle--": -4.3}  # two reflex sector angles, one of either sign
+KINDS = ["arc", "origin", "angle+", "angle-", "angle++", "angle--", "spline", "polyline", "project1", "project2", "oncurve", "line", "collinear_arc", "zero_length"]
+DIRECTED = {"angle+", "angle-", "angle++", "angle--", "spline", "polyline", "oncurve"}
 USAGES = ["given", "invert", "shift1", "shift2", "shift3", "reorient0", "reorient1", "reorient2", "reorient3"]
 
 
@@ -43,7 +44,7 @@ def cases(tier, seed):
                     if kind == "zero_length" and (slot < 8 or usage != "given"):
                         continue
                     out.append({"frame": fr, "kind": kind, "slot": slot, "usage": usage, "dup": "none", "order": 0})
-        for kind in ("spline", "angle+", "arc", "polyline", "project1", "origin"):
+        for kind in ("spline", "angle+", "angle--", "arc", "polyline", "project1", "origin"):
             if tier == "quick" and kind in ("project1", "origin") and fr != 0:
                 continue
             for slot in (0, 1, 3, 5, 7, 8, 11):
@@ -52,7 +53,7 @@ def cases(tier, seed):
                         out.append({"frame": fr, "kind": kind, "slot": slot, "usage": "given", "dup": dup, "order": order})
         # the same Face object used as the top of one operation and the bottom of the next (stacking),
         # and life-cycle histories after the first write: write again / clear+write / backport+write
-        for kind in ("spline", "polyline", "angle+", "angle-", "arc", "oncurve"):
+        for kind in ("spline", "polyline", "angle+", "angle-", "angle--", "arc", "oncurve"):
             for slot in (4, 5, 6, 7):
                 for order in (0, 1):
                     out.append({"frame": fr, "kind": kind, "slot": slot, "usage": "given", "dup": "stack", "order": order})
@@ -111,8 +112,8 @@ def user_curve(kind, A, B, frame, flip=False):
         th = math.acos(float(np.dot(A - o, B - o)) / r / r)
         ref["length"] = r * th
         return (lambda: cb.Origin(list(o))), ref
-    if kind in ("angle+", "angle-"):
-        theta = 0.9 if kind == "angle+" else -1.3
+    if kind in ANGLES:
+        theta = ANGLES[kind]
         n = np.cross(t, w)
         n = n / np.linalg.norm(n)
         # circle model: rotate A about c by theta (right-handed about n) gives B
@@ -286,7 +287,7 @@ def run_case(case):
     elif kind == "arc":
         if e["kind"] != "arc" or np.linalg.norm(np.array(e["point"]) - ref["point"]) > tol:
             bad("arc-point-changed", f"{e}")
-    elif kind in ("origin", "angle+", "angle-"):
+    elif kind == "origin" or kind in ANGLES:
         if e["kind"] != "arc":
             bad("wrong-kind", e["kind"])
         elif np.linalg.norm(np.array(e["point"]) - ref["mid"]) > 1e-5:
